@@ -1,5 +1,113 @@
 package props
 
-import "verif/h/core"
+import (
+	"bytes"
+	"encoding/json"
+	"fmt"
 
-func c05Harvest(c *core.Ctx) {}
+	"github.com/honeytrap/honeytrap/event"
+
+	"verif/h/core"
+	"verif/h/lab"
+)
+
+// c05Harvest runs the token grammars of C04 against the real services and
+// checks that every event they emit serialises the way the channels do it
+// (snapshot map -> encoding/json) and that the JSON carries every key.
+func c05Harvest(c *core.Ctx) {
+	check := func(svc string, evs []lab.EventMap) {
+		for _, m := range evs {
+			c.Count("harvested_events", 1)
+			e := event.New()
+			for k, v := range m {
+				e.Store(k, v)
+			}
+			if _, err := marshalLikeChannels(e); err != nil {
+				c.Violationf("C05:harvest:"+svc, "%s event %s: %v", svc, trunc(dumpEvent(m), 300), err)
+			}
+			// payload fields, when present, must agree with each other
+			if hxs, ok := m["payload-hex"].(string); ok {
+				p, _ := m["payload"].(string)
+				l, _ := m["payload-length"].(int)
+				if fmt.Sprintf("%x", p) != hxs || l != len(p) {
+					c.Violationf("C05:harvest-payload:"+svc, "%s: payload/payload-hex/payload-length disagree in %s", svc, trunc(dumpEvent(m), 300))
+				}
+			}
+			var buf bytes.Buffer
+			json.NewEncoder(&buf).Encode(m)
+			c.Outcome("harvest", svc, lab.Str(m, "type"), fmt.Sprint(len(m)))
+		}
+	}
+	tcp := []grammar{ftpGrammar(), smtpGrammar(), redisGrammar(), memcachedGrammar(false), telnetGrammar(), httpGrammar(), ldapGrammar()}
+	tcp = append(tcp, httpishGrammars()...)
+	for _, g := range tcp {
+		g := g
+		c.Case("harvest/"+g.svc, func() {
+			if g.oneShot {
+				for _, t := range g.tokens {
+					s := startSvc(g.svc)
+					conn := dial(s, g.svc, 0)
+					conn.Send(t.bytes)
+					lab.Quiesce()
+					conn.CloseWrite()
+					settleConn(conn)
+					check(g.svc, allEvents())
+					s.Stop()
+					c.Count("executions", 1)
+				}
+				return
+			}
+			s := startSvc(g.svc)
+			defer s.Stop()
+			conn := dial(s, g.svc, 0)
+			lab.Quiesce()
+			for _, t := range append(append([]token(nil), g.prologue...), g.tokens...) {
+				conn.Send(t.bytes)
+				lab.Quiesce()
+			}
+			conn.CloseWrite()
+			settleConn(conn)
+			check(g.svc, allEvents())
+			c.Count("executions", 1)
+		})
+	}
+	for _, g := range udpGrammars() {
+		g := g
+		c.Case("harvest/udp/"+g.svc, func() {
+			s := startSvc(g.svc)
+			defer s.Stop()
+			ip, port := clientAddr(0)
+			for _, t := range g.tokens {
+				s.SendUDP(serverIP, svcSpecs[g.svc].port, ip, port, t.bytes)
+				lab.Quiesce()
+			}
+			check(g.svc, allEvents())
+			c.Count("executions", 1)
+		})
+	}
+	// raw garbage to every service: error events must serialise too
+	for _, name := range []string{"adb", "vnc", "ssh-simulator", "ssh-auth", "https", "ipp", "ntp", "cwmp", "docker"} {
+		name := name
+		c.Case("harvest/raw/"+name, func() {
+			for _, in := range [][]byte{[]byte("\x00"), []byte("GET / HTTP/1.0\r\n\r\n"), []byte("SSH-2.0-x\r\n"), []byte("RFB 003.008\n"), []byte("CNXN\x00\x00\x00\x01\x00\x10\x00\x00\x07\x00\x00\x00\x32\x02\x00\x00\xbc\xb1\xa7\xb1host::\x00"), bytes.Repeat([]byte{0xff}, 64)} {
+				s := startSvc(name)
+				sp := svcSpecs[name]
+				if sp.proto == "udp" {
+					ip, port := clientAddr(0)
+					s.SendUDP(serverIP, sp.port, ip, port, in)
+					lab.Quiesce()
+				} else {
+					conn := dial(s, name, 0)
+					lab.Quiesce()
+					conn.Send(in)
+					lab.Quiesce()
+					conn.CloseWrite()
+					settleConn(conn)
+				}
+				check(name, allEvents())
+				s.Stop()
+				c.Count("executions", 1)
+			}
+		})
+	}
+}
